@@ -71,7 +71,7 @@ func init() {
 		Runs: func(tier string) []gosym.RunConfig {
 			budget := 60
 			if tier == "thorough" {
-				budget = 1200
+				budget = 300
 			}
 			return []gosym.RunConfig{
 				{Name: "router-mindelay", Entry: "VerifRouterProcess", Sched: true, Unwind: 6, AssertPrefix: "C14:"},
@@ -127,7 +127,7 @@ func init() {
 				}
 			}
 			if tier == "thorough" {
-				return append(out, mk(1, 1, 0), mk(2, 1, 600), mk(3, 1, 900), mk(2, 2, 900))
+				return append(out, mk(1, 1, 0), mk(2, 1, 240), mk(3, 1, 240))
 			}
 			return append(out, mk(1, 1, 0), mk(3, 1, 40))
 		},
